@@ -664,4 +664,64 @@ theorem infer_perm_family (sch : Schema) (h : inFamilyUB sch = true) (hs : List 
   unfold infer
   rw [e1, f1]
 
+/-! ### the ordered family is a subset of the unordered one -/
+
+theorem namesOk_U {fs : List Field} (h : namesOk fs = true) : namesOkU fs = true := by
+  simp only [namesOk, Bool.and_eq_true] at h
+  simp only [namesOkU, Bool.and_eq_true]
+  exact h.1
+
+theorem fam_wf : ∀ (N : Nat) (t : Ty) (d : Val), sizeOf t < N → famTD t d = true →
+    wfTD t d = true
+  | 0, _, _, h, _ => by omega
+  | N + 1, t, d, hN, hf => by
+    cases hs : isSimple t d with
+    | true =>
+      revert hf
+      cases t with
+      | model _ => simp [isSimple] at hs
+      | list t =>
+        cases d with
+        | list l =>
+          cases l with
+          | nil => simp [famTD, wfTD]
+          | cons _ _ => simp [isSimple] at hs
+        | _ => simp [famTD]
+      | str => cases d <;> simp [famTD, wfTD]
+      | int => cases d <;> simp [famTD, wfTD]
+      | float => cases d <;> simp [famTD, wfTD]
+      | bool => cases d <;> simp [famTD, wfTD]
+      | anyList =>
+        cases d with
+        | list l => cases l <;> simp [famTD, wfTD]
+        | _ => simp [famTD]
+    | false =>
+      obtain ⟨_, _, _, _, c5, _⟩ := fam_children t d hf hs
+      have ih : ∀ f ∈ childFields t d, wfTD f.2.1 f.2.2 = true := fun f hf' =>
+        fam_wf N f.2.1 f.2.2 (by have := (c5 f hf').2; omega) (c5 f hf').1
+      cases t with
+      | model fs =>
+        simp only [famTD, Bool.and_eq_true] at hf
+        simp only [wfTD, Bool.and_eq_true]
+        exact ⟨⟨⟨hf.1.1.1, wfFs_of_forall ih⟩, namesOk_U hf.1.2⟩, hf.2⟩
+      | list t =>
+        cases d with
+        | list l =>
+          cases l with
+          | nil => simp [isSimple] at hs
+          | cons d ds =>
+            simp only [wfTD, List.all_eq_true]
+            intro x hx
+            obtain ⟨j, hj, e⟩ := List.getElem_of_mem hx
+            have := ih _ (idxFields_mem t 1 (d :: ds) j hj)
+            simpa [e] using this
+        | _ => simp [isSimple] at hs
+      | _ => simp [isSimple] at hs
+
+theorem inFamily_U {sch : Schema} (h : inFamilyB sch = true) : inFamilyUB sch = true := by
+  simp only [inFamilyB, Bool.and_eq_true] at h
+  simp only [inFamilyUB, Bool.and_eq_true]
+  exact ⟨wfFs_of_forall (fun f hf => fam_wf _ _ _ (Nat.lt_succ_self _) (famFs_mem h.1 f hf)),
+    namesOk_U h.2⟩
+
 end Rpft.Infer
